@@ -309,3 +309,20 @@ package network
 //@   requires l != nil
 //@   modifies nothing
 //@   ensures [joins] result != nil && fresh(result) && result.InNode == inputNode && result.OutNode == outNode && result.ConnectionWeight == l.ConnectionWeight && result.IsRecurrent == l.IsRecurrent
+
+// ---- C13 / C12: a recursive pass starts from the signals only ---------------------------------------------
+// Before any neuron is activated the marks of the previous pass are reset and lastActivation holds the current signals of every
+// non-sensor neuron: nothing of an earlier pass other than the signals (which Flush zeroes) can influence this one.
+//@ func (*FastModularNetworkSolver).RecursiveSteps
+//@   props C13 C12
+//@   mode nosafety
+//@   assume_pre recursiveActivateNode
+//@   requires s != nil && solverWF(s)
+//@   requires base(s.activated) != base(s.inActivation)
+//@   loop 1:
+//@     invariant 0 <= i && i <= s.totalNeuronCount && len(s.modules) == 0
+//@     invariant [signalsKept] forall t :: 0 <= t && t < s.totalNeuronCount ==> s.neuronSignals[t] == old(s.neuronSignals[t])
+//@     invariant [prepared] forall t :: 0 <= t && t < i ==> (s.activated[t] <==> t < s.sensorNeuronCount) && !s.inActivation[t] && (t >= s.sensorNeuronCount ==> s.lastActivation[t] == s.neuronSignals[t])
+//@     exit [prepared] forall t :: 0 <= t && t < s.totalNeuronCount ==> (s.activated[t] <==> t < s.sensorNeuronCount) && !s.inActivation[t] && (t >= s.sensorNeuronCount ==> s.lastActivation[t] == s.neuronSignals[t])
+//@   loop 2:
+//@     invariant 0 <= i
